@@ -157,12 +157,15 @@ PROPS = {
         "units": ["ad"], "kani_complete": ["flags"], "kani_bounded_quick": [], "kani_bounded_thorough": ["ad_enc"],
         "design_ref": "DESIGN.md section 5 / C12",
         "not_covered": [
-            "decoding is proved for the real from_slice / from_reader bodies against trusted models of std::io::Cursor / Read, "
-            "ciborium::de::from_reader (consumes >= 1 byte on success, value unconstrained) and CoseKey::from_cbor_value: "
-            "what the CBOR of the key and of the extension map decodes to is therefore not covered, nor is the equality of "
-            "decode(encode(x)) and x as a whole (the encoder is an iterator chain, bounded Kani only)",
-            "the attested-credential and extension sections of the encoding (ciborium / coset inside CBMC); credential ids near 65535 bytes in the encoder",
-            "header encoding (to_vec) only by the bounded Kani harness K-AD-ENC (thorough tier; sha256 stubbed)",
+            "encoding (to_vec, AttestedCredentialData::into_iter) and decoding (from_slice, from_reader) are proved on the real bodies, and "
+            "decode(encode(x)) is proved to return x's hash, flags (with AT), counter (absent = 0), aaguid, credential id, key and extensions for "
+            "every x whose sections agree with its flags -- all relative to trusted models: rule R23's byte-chain model, std::io::Cursor / Read, "
+            "a deterministic ciborium / coset (uninterpreted encode / decode functions) and two round-trip axioms (an item written by "
+            "ciborium / coset is read back as the same value, consuming exactly its bytes). What CBOR bytes those libraries actually produce "
+            "is not covered",
+            "to_vec carries the type invariant as a precondition (credential id at most 65535 bytes: the field is private and "
+            "AttestedCredentialData::new / from_reader establish it)",
+            "the bounded Kani harness K-AD-ENC (thorough tier; sha256 stubbed) checks the 37-byte header layout on the compiled crate",
         ],
     },
     "C13": {
